@@ -1,9 +1,8 @@
 from .common import TRUSTED_BASE_COMMON
 THEOREMS = [
     "C10_constants",
-    "C10_verified_weight_backed_refuted",
-    "C10_verified_weight_backed_refuted_two_declarations",
-    "C10_verified_weight_backed_modulo_malformed_declarations",
+    "C10_verified_weight_backed",
+    "C10_accepted_declarations_are_well_formed",
     "C10_onboard_terms",
     "C10_drop_only_at_end_of_life",
     "C10_extension_never_shortens",
@@ -24,7 +23,7 @@ TRUSTED_BASE = TRUSTED_BASE_COMMON + [
     "deadline mutability of TerminateSectors is an input of the operation (computed by the real deadline_is_mutable)",
 ]
 ASSUMPTIONS = [
-    "decls_wf (hypothesis of verified_weight_backed_modulo_malformed_declarations): in each ExtendSectorExpiration2 message every sector is named by at most one declaration and one SectorClaim entry, and no claim id is repeated inside an entry; without it the statement is refuted (F4, F4b)",
+    "F4 / F4b (duplicate claim id in a declaration; one sector in two declarations) were real defects found by this check and repaired in /repo commit 081fc6c; the model transcribes the repaired validator, corpus/C10/F4*.json are regression replays (the messages must now be refused with exit 16), and an accepted malformed declaration is a monitor failure again",
     "live sector = not terminated and expiration later than every epoch at which a message of the history was sent (epochs need not be monotone for the theorem; the harness moves time forward only)",
     "only SIMPLE_QA_POWER sectors are covered by the coverage theorem (legacy sectors lose weight pro rata on extension and never consult claims)",
     "seal proofs of the V1P1 family (maximum lifetime 5 years); sector numbers, ids, sizes, epochs are u64/i64 in Rust and Z in the model",
